@@ -16,6 +16,8 @@ CLAIMS = {
          "Coq kernel; BinaryHeap and FxHashMap modelled (priority-queue lemmas proved for the concrete heap model); the tokio expiry timer is an event at arbitrary times."),
  "C12": ("proof", "Circular comparison primitives proved equal to the mathematical circular order for all pairs < 2^31 apart, mutually consistent and shift-invariant; TCB-level ISN equivariance: paired runs of the real Tcb with shifted ISNs (oracle) and lock-step of the TCB model; equivariance theorem over the model in progress.",
          "Coq kernel; hand model of modular_cmp.rs and tcb.rs tied by lock-step."),
+ "C19": ("proof", "NDL parser model (incl. the nom combinators used) with the whole-file round trip proved for tab / 4-space / CRLF renderings of every well-formed description, soundness of acceptance and one reject lemma per structural-error class; parser tied to the code by lock-step on rendered trees and mutants of the repository's files; running a valid description is checked by child-process runs against a reference evaluation (testing only). Values containing `]`, four spaces or CR do not round-trip: recorded known finding.",
+         "Coq kernel; nom 7 combinators hand-modelled; error message texts not modelled (class + line only); machine_generator/run_internet not modelled (part 2 partial)."),
  "C15": ("proof", "Address-generator specs (block/return/fetch), no-panic and the no-double-allocation history theorem proved for all op sequences; DHCP distinctness proved on a protocol model; generator tied to ip_generator.rs by lock-step; the DHCP protocol model is not yet tied to the code by full-stack runs (partial there).",
          "Coq kernel; stored range set read through Debug; DHCP Notify-based waiting and the UDP/IP stack are not modelled."),
 }
